@@ -104,8 +104,16 @@ POST_HEADS = [
 POST = [
     " (1999)", " (2000)", " (2d Cir. 1994)", " (1993 amendments omitted)", " ()", " ()x)", " (", ")", " (x)", " (quoting (y) z)",
     ", 5", ", at 5-6", " [1999]", " (1999", " 1999)", " (99999)", " (n.d.)", ";", ". ", " (West 1999)", " (May 2, 1999)", " (1999-",
-    " (Wyo. ", "\n",
+    " (Wyo. ", "\n", " (  holding that x)", " ( x )", "  (z)", " (holding that the 1964 Act applies)",
 ]
+
+
+def post_documents(more):
+    """Every citation head followed by every sequence of 1..more+1 post-citation fragments."""
+    for head in POST_HEADS:
+        for k in range(1, more + 2):
+            for t in itertools.product(POST, repeat=k):
+                yield head + "".join(t)
 MODES = ["unchecked", "skip", "wrap"]
 N = {"quick": {"AC": 4, "HS": 4, "REF": 3}, "thorough": {"AC": 5, "HS": 5, "REF": 4}}
 K = {"quick": {"AC": 2, "HS": 2, "REF": 2}, "thorough": {"AC": 3, "HS": 3, "REF": 2}}
@@ -118,7 +126,7 @@ def setup(tier, seed):
 
 
 def bounds(tier):
-    return {"char_alphabet": [repr(c) for c in CHARS], "max_len": N[tier], "fragment_alphabet": len(A4), "frag_depth": K[tier], "separators": ["", " "], "modes": MODES, "string_templates": STRING_TEMPLATES, "reporter_strings": "all keys of EDITIONS_LOOKUP", "post_heads": len(POST_HEADS), "post_fragments": len(POST), "post_depth": 2 if tier == "quick" else 3}
+    return {"char_alphabet": [repr(c) for c in CHARS], "max_len": N[tier], "fragment_alphabet": len(A4), "frag_depth": K[tier], "separators": ["", " "], "modes": MODES, "string_templates": STRING_TEMPLATES, "reporter_strings": "all keys of EDITIONS_LOOKUP", "examples": "all example citations of reporters-db (full, short form, year variants)", "post_heads": len(POST_HEADS), "post_fragments": len(POST), "post_depth": 2 if tier == "quick" else 3}
 
 
 def pipeline(tok, text):
@@ -206,6 +214,16 @@ def string_texts(sh):
     for rep in sorted(T.EDITIONS_LOOKUP)[sh["r"] :: sh["n"]]:
         for tmpl in STRING_TEMPLATES:
             yield (0,), tmpl.format(r=rep)
+    # every example citation of reporters-db (formats without a volume, with the year inside, ...) in full, then in
+    # short form, then id.; and with out-of-range years where the format carries a year
+    from mc import examples
+
+    for kind, key, ex in examples.all_examples()[sh["r"] :: sh["n"]]:
+        sf = examples.short_form(ex)
+        yield (0,), f"Foo v. Bar, {ex} (1999). See {sf or ex}, 7. Id. at 5."
+        yield (0,), f"{ex}; {sf or ex} (x). Bar, supra."
+        for exy in examples.with_years(ex):
+            yield (0,), f"Foo v. Bar, {exy}. Id."
 
 
 def run_shard(sh):
